@@ -9,13 +9,17 @@ from tools.triage import load, save
 def main():
     prop = sys.argv[1]
     mod = importlib.import_module(f"vp.props.{prop.lower()}")
-    unis = sys.argv[2].split(",") if len(sys.argv) > 2 else list(mod.PLAN)
+    unis = sys.argv[2].split(",") if len(sys.argv) > 2 else list(mod.PLAN) + list(getattr(mod, "PLAN_CFG", {}))
     opts = getattr(mod, "TRIAGE_OPTS", None)
     chunk = getattr(mod, "TRIAGE_CHUNK", 50)
     for uname in unis:
         u = engine.get_universe(uname)
         t0 = time.time()
-        jobs = [(mod.EVALUATOR, uname, list(range(i, min(i + chunk, u.size))), opts) for i in range(0, u.size, chunk)]
+        evaluator = mod.EVALUATOR
+        for tag, path in getattr(mod, "EVALUATORS", {}).items():
+            if uname.endswith(tag):
+                evaluator = path
+        jobs = [(evaluator, uname, list(range(i, min(i + chunk, u.size))), opts) for i in range(0, u.size, chunk)]
         fails = collections.defaultdict(list); stats = collections.Counter(); done = 0
         for res in pool.run_jobs("vp.engine:eval_ranks", jobs, stall_s=7200):
             done += res["n"]; stats["pass"] += res["pass"]; stats["skip"] += res["skip"]; stats["nt"] += res["nt"]
